@@ -84,6 +84,14 @@ def evolution_schemas(deep: bool = False) -> List[G.Schema]:
                    G.Field("std", 6, G.TArray(G.TInt(32), 3, True)), G.Field("after3", 7, G.TUint(16)),
                    G.Field("bytes", 8, G.TArray(G.TByte(), 6, True)), G.Field("after4", 9, G.TUint(3))]
     out.append(mark(G.Schema("bothsteps", [elem, rowx, hold])))
+    # an extensible message that is EMPTY in the older version (all it has now was appended), as field and as element
+    solo = G.MsgDef("Solo", True)
+    solo.fields = [G.Field("only", 1, G.TUint(5))]
+    keeper = G.MsgDef("Keeper", False)
+    keeper.fields = [G.Field("pad", 1, G.TUint(3)), G.Field("s", 2, G.TRef(solo)), G.Field("after", 3, G.TUint(8)),
+                     G.Field("many", 4, G.TArray(G.TRef(solo), 3, True)), G.Field("after2", 5, G.TInt(9)),
+                     G.Field("fixed", 6, G.TArray(G.TRef(solo), 2, False)), G.Field("after3", 7, G.TUint(4))]
+    out.append(mark(G.Schema("emptyolder", [solo, keeper])))
     # a size / capacity prefix at every odd bit offset r whose value needs more than 16 - r bits
     for r in range(1 if deep else 5, 8):  # small r = long messages: thorough tier only
         n = (1 << (16 - r)) // 8  # bytes: the message then has 2^(16-r) + 8 payload bits
